@@ -6,6 +6,7 @@ package main
 // any edit of these pieces breaks an obligation and the check looks for a failing input.
 
 import (
+	"fmt"
 	"go/ast"
 	"strings"
 )
@@ -88,6 +89,9 @@ func init() {
 		s += "def splitCases : List String := " + leanStrList(conds) + "\n"
 		s += "def compileRegex : List String := " + leanStrList(c10Lines(findFunc(ip, "interp", "compileRegex").Body)) + "\n"
 		s += "def addRegexFlags : List String := " + leanStrList(c10Lines(findFunc(parseFile("internal/compiler/compiler.go"), "", "AddRegexFlags").Body)) + "\n"
+		for _, n := range []string{"maxCachedRegexes", "maxCachedFormats"} {
+			s += fmt.Sprintf("def %s : Nat := %d\n", n, constInt(ip, n))
+		}
 		return "C10Builtins.lean", s + footer("C10Builtins")
 	})
 }
